@@ -41,6 +41,11 @@ BodyNulls    == {VarQ(p) : p \in Paths} \cup {NullPair(p) : p \in Paths}
                 \cup {LivePair(p, q) : p, q \in Paths} \cup {CaseRef(p) : p \in Paths}
 Frags        == {Stmt(<<Id("x"), Op("="), QualG(p, Sym(p))>>) : p \in Paths}
 NoFrags      == {}
+Meta0 == {[headers |-> <<>>, comments |-> <<>>, canonical |-> ""]}
+MetaAll == {[headers |-> h, comments |-> c, canonical |-> k] :
+              h \in {<<>>, <<Cmt("Code generated. DO NOT EDIT.")>>, <<Cmt("h1"), CmtS("h2\nh3", "block")>>},
+              c \in {<<>>, <<Cmt("Package main does things.")>>, <<Cmt("Package main."), Cmt("More.")>>},
+              k \in {"", "example.com/canon"}}
 Pre0 == {<<>>}
 Pre012 == {<<>>, <<Cmt("#include <a.h>")>>, <<Cmt("#include <a.h>"), CmtS("int f();\nint g();", "block")>>}
 
